@@ -4,6 +4,7 @@ import (
 	"fmt"
 	"math"
 	"regexp"
+	"sort"
 	"strconv"
 	"strings"
 
@@ -329,21 +330,93 @@ func runC17Interp(c *Ctx) {
 		c.Errorf("anchor interpolate does not resolve")
 		return
 	}
-	// the fraction used downstream is max(0, min(1, frac))
-	clamped := false
-	eachCall(g, func(call ssa.CallInstruction) {
-		if calleeName(call) == "math.Max" {
-			a := call.Common().Args
-			if inner, ok := a[1].(*ssa.Call); ok && calleeName(inner) == "math.Min" {
-				z, okz := a[0].(*ssa.Const)
-				o, oko := inner.Call.Args[0].(*ssa.Const)
-				if okz && oko && z.Value.String() == "0" && o.Value.String() == "1" && inner.Call.Args[1] == ssa.Value(g.Params[1]) {
-					clamped = true
+	// the point returned lies at arc length clamp(frac, 0, 1) * total: interpreted
+	// on a three-point line with segment lengths 3 and 5 (cumulative [3, 8]); the
+	// search, the segment length and the final interpolation are answered from
+	// that model, and the position is read off the interpolation's arguments
+	cum := []float64{3, 8}
+	seg := []float64{3, 5}
+	before := func(i int) float64 {
+		if i <= 0 {
+			return 0
+		}
+		if i > len(cum) {
+			i = len(cum)
+		}
+		return cum[i-1]
+	}
+	idxRe := regexp.MustCompile(`\$0\.seq,(\d+)\)`)
+	problem, undec = "", ""
+	for _, frac := range []float64{-0.5, 0, 0.25, 0.375, 0.5, 0.9, 1, 1.5} {
+		m := &Model{Num: map[string]float64{"$1": frac, "$0.total": 8, "geom.(Sequence).Length($0.seq)": 3}, Bool: map[string]bool{}, Missing: map[string]bool{}}
+		it := &k4interp{p: c.P, m: m, mem: map[string]k4val{}}
+		it.mem["$0.cumulative"] = k4val{kind: 8, s: "CUM", ln: 2, cp: 2}
+		it.mem["CUM[0]"] = k4val{kind: 2, f: cum[0]}
+		it.mem["CUM[1]"] = k4val{kind: 2, f: cum[1]}
+		pos, have := 0.0, false
+		it.onOpaque = func(name string, args []k4val) {
+			if name == "sort.SearchFloat64s" && len(args) == 2 && args[1].kind == 2 {
+				m.Num["search target"] = args[1].f
+			}
+			if name == "geom.interpolateCoords" && len(args) == 3 && args[2].kind == 2 {
+				a, b := idxRe.FindStringSubmatch(args[0].String()), idxRe.FindStringSubmatch(args[1].String())
+				if a != nil && b != nil {
+					i0, _ := strconv.Atoi(a[1])
+					i1, _ := strconv.Atoi(b[1])
+					if i1 == i0+1 && i0 < len(seg) {
+						pos, have = before(i0)+args[2].f*seg[i0], true
+					}
 				}
 			}
 		}
-	})
-	c.Check(clamped, g.Pos(), FuncName(g), "fraction clamp", "frac = max(0, min(1, frac))", "the fraction is not clamped to [0, 1]: fractions outside the interval extrapolate beyond the end points")
+		it.answer = func(key string, isBool bool) (k4val, bool) {
+			if isBool {
+				return k4val{}, false
+			}
+			if strings.HasPrefix(key, "sort.SearchFloat64s(") {
+				t, ok := m.Num["search target"]
+				if !ok {
+					return k4val{}, false
+				}
+				return k4val{kind: 2, f: float64(sort.SearchFloat64s(cum, t))}, true
+			}
+			if strings.Contains(key, "distanceTo(") {
+				mm := idxRe.FindAllStringSubmatch(key, -1)
+				if len(mm) == 2 {
+					i0, _ := strconv.Atoi(mm[0][1])
+					i1, _ := strconv.Atoi(mm[1][1])
+					if i0 > i1 {
+						i0, i1 = i1, i0
+					}
+					if i1 == i0+1 && i0 < len(seg) {
+						return k4val{kind: 2, f: seg[i0]}, true
+					}
+				}
+			}
+			return k4val{}, false
+		}
+		res, err := it.call(g, []k4val{{kind: 3, s: "$0"}, {kind: 2, f: frac}}, nil)
+		if err != nil || len(res) != 1 {
+			undec = fmt.Sprintf("frac=%v: %v %s", frac, err, missingList(m))
+			break
+		}
+		out := res[0].String()
+		if !strings.Contains(out, "interpolateCoords(") || !have {
+			mm := idxRe.FindStringSubmatch(out)
+			if mm == nil {
+				undec = fmt.Sprintf("frac=%v: the result %s is neither a control point nor an interpolation between neighbours", frac, trunc(out))
+				break
+			}
+			k, _ := strconv.Atoi(mm[1])
+			pos = before(k)
+		}
+		want := math.Max(0, math.Min(1, frac)) * 8
+		if math.Abs(pos-want) > 1e-9 {
+			problem = fmt.Sprintf("on a line of length 8 (segments 3 and 5) fraction %v yields the point at arc length %v; the contract (fraction clamped to [0, 1]) gives %v", frac, pos, want)
+			break
+		}
+	}
+	reportK4(c, g, "fraction clamp", undec, problem, "fractions -0.5..1.5 land at arc length clamp(frac)*total on the modelled three-point line")
 }
 
 func runC15Mod2(c *Ctx) {
